@@ -1924,6 +1924,18 @@ package rtcp
 //@     invariant[C11] !specItemsHaveCNAME(c.Items, iter())
 //@     decreases len(c.Items) - iter()
 
+//@ func (c CompoundPacket) String() (result string)
+//@   safety[C17]
+//@   assumes members: forall k :: 0 <= k && k < len(c) ==> c[k] != nil
+//@   loop 1
+//@     invariant 0 <= iter() && iter() <= len(c)
+//@     decreases len(c) - iter()
+
+//@ func NewCNAMESourceDescription(ssrc uint32, cname string) (result *SourceDescription)
+//@   safety[C17]
+//@   ensures[C11] shape: result != nil && len(result.Chunks) == 1 && result.Chunks[0].Source == ssrc && len(result.Chunks[0].Items) == 1 && result.Chunks[0].Items[0].Type == SDESCNAME && len(result.Chunks[0].Items[0].Text) == len(cname)
+//@   ensures[C11] text: forall k :: 0 <= k && k < len(cname) ==> result.Chunks[0].Items[0].Text[k] == cname[k]
+
 //@ func (c CompoundPacket) DestinationSSRC() (result []uint32)
 //@   safety[C10]
 //@   requires[C10] first: len(c) == 0 || isType(c[0], (*SenderReport)(nil)) || isType(c[0], (*ReceiverReport)(nil))
